@@ -10,7 +10,9 @@ network decides (does `f.txt` exist, is a connection pending) selects one of the
 errno is not constrained, 0 included) appears only where success and failure have the same footprint and the same
 table; `Err.nz` is "an errno other than 0".
 
-Finding switch (DESIGN §8): `fixed = false` is sock_recv as it is on the pinned tree (F61: with RI_RECV_PEEK the
+Finding switches (DESIGN §8): `fixedRead = false` is `readv` as it is on the pinned tree (F62: the iovec entries are read
+from the live memory while earlier buffers are filled), `fixedRead = true` reads them from a copy taken at the start;
+`fixed = false` is sock_recv as it is on the pinned tree (F61: with RI_RECV_PEEK the
 first iovec is used without looking at ri_data_len, and `ri_data + 4` is computed in 32 bits), `fixed = true` the
 repaired variant.
 -/
@@ -359,7 +361,7 @@ def iovWritable (m : Mem) (iovs iovsStop : Nat) : List Wr :=
     (fun r => Wr.region r.1 r.2)
 
 
-def sockRecv (fixed : Bool) (fds : Fds) (m : Mem) (fd iovs cnt riFlags res roFlags : Nat) : List Res :=
+def sockRecv (fixed fixedRead : Bool) (fds : Fds) (m : Mem) (fd iovs cnt riFlags res roFlags : Nat) : List Res :=
   match lookupFd fds fd with
   | some .conn =>
     let f := riFlags % 256
@@ -382,7 +384,9 @@ def sockRecv (fixed : Bool) (fds : Fds) (m : Mem) (fd iovs cnt riFlags res roFla
     else
       let iovsStop := w32 (cnt * 8)
       if !m.has iovs iovsStop then rE efault else
-      -- readv with the connection as reader: what arrives when is the network's business
+      -- readv with the connection as reader: what arrives when is the network's business; as-is (F62) data received
+      -- into a buffer that covers later iovec entries redirects the next reads
+      if !fixedRead && iovAliased m iovs iovsStop then [{ err := .any, writes := [Wr.region 0 m.size] }] else
       [{ err := .any, writes := iovWritable m iovs iovsStop ++ optRegion m res 4 ++ optRegion m roFlags 2 }]
   | _ => rE ebadf
 
@@ -470,11 +474,11 @@ def modelled2 : List String := Fn2.all.map Fn2.name
 
 def modelled : List String := modelled1 ++ modelled2
 
-def call1e (fixed : Bool) (h : Host) (fds : Fds) (m : Mem) (fn : Fn1) (a : List Nat) : Option Res :=
+def call1e (fixed fixedRead : Bool) (h : Host) (fds : Fds) (m : Mem) (fn : Fn1) (a : List Nat) : Option Res :=
   match fn with
   | .poll_oneoff => (match a with | [i, o, n, r] => some (pollOneoff fixed fds m (w32 i) (w32 o) (w32 n) (w32 r)) | _ => none)
-  | .fd_read => (match a with | [fd, iovs, cnt, r] => some (fdRead h fds m (w32 fd) (w32 iovs) (w32 cnt) (w32 r)) | _ => none)
-  | .fd_pread => (match a with | [fd, iovs, cnt, _, r] => some (fdPread fds m (w32 fd) (w32 iovs) (w32 cnt) (w32 r)) | _ => none)
+  | .fd_read => (match a with | [fd, iovs, cnt, r] => some (fdRead fixedRead h fds m (w32 fd) (w32 iovs) (w32 cnt) (w32 r)) | _ => none)
+  | .fd_pread => (match a with | [fd, iovs, cnt, _, r] => some (fdPread fixedRead fds m (w32 fd) (w32 iovs) (w32 cnt) (w32 r)) | _ => none)
   | .fd_write => (match a with | [fd, iovs, cnt, r] => some (fdWrite fds m (w32 fd) (w32 iovs) (w32 cnt) (w32 r)) | _ => none)
   | .fd_pwrite => (match a with | [fd, iovs, cnt, _, r] => some (fdPwrite fds m (w32 fd) (w32 iovs) (w32 cnt) (w32 r)) | _ => none)
   | .args_get => (match a with | [p, q] => some (argsGet h m (w32 p) (w32 q)) | _ => none)
@@ -497,13 +501,13 @@ def call1e (fixed : Bool) (h : Host) (fds : Fds) (m : Mem) (fn : Fn1) (a : List 
 
 
 /-- the same, by name -/
-def call1 (fixed : Bool) (h : Host) (fds : Fds) (m : Mem) (fn : String) (a : List Nat) : Option Res :=
+def call1 (fixed fixedRead : Bool) (h : Host) (fds : Fds) (m : Mem) (fn : String) (a : List Nat) : Option Res :=
   match Fn1.all.find? (fun f => f.name == fn) with
-  | some f => call1e fixed h fds m f a
+  | some f => call1e fixed fixedRead h fds m f a
   | none => none
 
 /-- the 24 functions of this file; 32-bit parameters are reduced with `w32`, 64-bit ones with `% 2^64` -/
-def call2e (fixedRecv : Bool) (h : Host) (fds : Fds) (m : Mem) (fn : Fn2) (a : List Nat) : Option (List Res) :=
+def call2e (fixedRecv fixedRead : Bool) (h : Host) (fds : Fds) (m : Mem) (fn : Fn2) (a : List Nat) : Option (List Res) :=
   match fn with
   | .fd_readdir => (match a with | [fd, b, l, c, r] => some (fdReaddir h fds m (w32 fd) (w32 b) (w32 l) (c % W64) (w32 r)) | _ => none)
   | .path_open => (match a with | [fd, _, p, l, o, _, _, _, r] => some (pathOpen fds m (w32 fd) (w32 p) (w32 l) (w32 o) (w32 r)) | _ => none)
@@ -525,23 +529,23 @@ def call2e (fixedRecv : Bool) (h : Host) (fds : Fds) (m : Mem) (fn : Fn2) (a : L
   | .path_symlink => (match a with | [o, ol, fd, n, nl] => some (pathSymlink fds m (w32 o) (w32 ol) (w32 fd) (w32 n) (w32 nl)) | _ => none)
   | .path_link => (match a with | [fd, _, p, l, fd2, p2, l2] => some (pathOp2 fds m (w32 fd) (w32 p) (w32 l) (w32 fd2) (w32 p2) (w32 l2)) | _ => none)
   | .sock_accept => (match a with | [fd, _, r] => some (sockAccept fds m (w32 fd) (w32 r)) | _ => none)
-  | .sock_recv => (match a with | [fd, iovs, cnt, f, r, r2] => some (sockRecv fixedRecv fds m (w32 fd) (w32 iovs) (w32 cnt) (w32 f) (w32 r) (w32 r2)) | _ => none)
+  | .sock_recv => (match a with | [fd, iovs, cnt, f, r, r2] => some (sockRecv fixedRecv fixedRead fds m (w32 fd) (w32 iovs) (w32 cnt) (w32 f) (w32 r) (w32 r2)) | _ => none)
   | .sock_send => (match a with | [fd, iovs, cnt, f, r] => some (sockSend fds m (w32 fd) (w32 iovs) (w32 cnt) (w32 f) (w32 r)) | _ => none)
   | .sock_shutdown => (match a with | [fd, how] => some (sockShutdown fds (w32 fd) (w32 how)) | _ => none)
   | .proc_raise => (match a with | [_] => some (rE enosys) | _ => none)
 
 /-- the same, by name -/
-def call2 (fixedRecv : Bool) (h : Host) (fds : Fds) (m : Mem) (fn : String) (a : List Nat) : Option (List Res) :=
+def call2 (fixedRecv fixedRead : Bool) (h : Host) (fds : Fds) (m : Mem) (fn : String) (a : List Nat) : Option (List Res) :=
   match Fn2.all.find? (fun f => f.name == fn) with
-  | some f => call2e fixedRecv h fds m f a
+  | some f => call2e fixedRecv fixedRead h fds m f a
   | none => none
 
-/-- all 46 functions: the alternatives of a call (`fixed` / `fixedRecv` select the repaired variants of poll_oneoff /
-sock_recv) -/
-def call (fixed fixedRecv : Bool) (h : Host) (fds : Fds) (m : Mem) (fn : String) (a : List Nat) : Option (List Res) :=
-  match call1 fixed h fds m fn a with
+/-- all 46 functions: the alternatives of a call.  Finding switches: `fixed` = repaired poll_oneoff (F15), `fixedRecv` =
+repaired RI_RECV_PEEK of sock_recv (F61), `fixedRead` = repaired `readv` of fd_read / fd_pread / sock_recv (F62) -/
+def call (fixed fixedRecv fixedRead : Bool) (h : Host) (fds : Fds) (m : Mem) (fn : String) (a : List Nat) : Option (List Res) :=
+  match call1 fixed fixedRead h fds m fn a with
   | some r => some [r]
-  | none => call2 fixedRecv h fds m fn a
+  | none => call2 fixedRecv fixedRead h fds m fn a
 
 /-- designated output regions of the 24 functions of this file (arguments already reduced to 32 bits) -/
 def designated2e (m : Mem) (fn : Fn2) (a : List Nat) : List (Nat × Nat) :=
